@@ -78,5 +78,13 @@ EXTRACT ("C11Algo", a_simpleXYZ, "Euler.simpleXYZRotation",
              { IN (Vec3, xyzRot); IN (Vec3, target); Euler<T>::nearestRotation (xyzRot, target, Euler<T>::O); c.out (xyzRot); })            \
     EXTRACT_DBL ("C11Algo", a_makeNear_##O, "Euler.makeNear_" #O,                                                                              \
              { IN (Vec3, a); IN (Vec3, t); Euler<T> e (a, Euler<T>::O); Euler<T> tg (t, Euler<T>::O); e.makeNear (tg);                      \
+               c.out (Vec3<T> (e.x, e.y, e.z)); c.outI ((long) e.order ()); })                                                           \
+    /* target given in a DIFFERENT order (ImathEuler.h makeNear: `if (order () != target.order ())` converts it with the        \
+       re-ordering constructor); for O = ZYXr resp. XYZ the entry takes the same-order branch */                                 \
+    EXTRACT_DBL ("C11Algo", a_makeNearZYXr_##O, "Euler.makeNearFromZYXr_" #O,                                                                  \
+             { IN (Vec3, a); IN (Vec3, t); Euler<T> e (a, Euler<T>::O); Euler<T> tg (t, Euler<T>::ZYXr); e.makeNear (tg);                   \
+               c.out (Vec3<T> (e.x, e.y, e.z)); c.outI ((long) e.order ()); })                                                           \
+    EXTRACT_DBL ("C11Algo", a_makeNearXYZ_##O, "Euler.makeNearFromXYZ_" #O,                                                                    \
+             { IN (Vec3, a); IN (Vec3, t); Euler<T> e (a, Euler<T>::O); Euler<T> tg (t, Euler<T>::XYZ); e.makeNear (tg);                    \
                c.out (Vec3<T> (e.x, e.y, e.z)); c.outI ((long) e.order ()); })
 C11_ORDERS (C11_NEAR)
